@@ -113,12 +113,27 @@ Definition entry_of (m : mdef) : string * aent :=
 Lemma forallb_app_l : forall A (f : A -> bool) a b, forallb f (a ++ b) = true -> forallb f a = true.
 Proof. intros A f a b H. rewrite forallb_app in H. now apply andb_true_iff in H as [H _]. Qed.
 
+Definition getter_ok' (m : mdef) : bool :=
+  match m_wrap m with
+  | WProperty _ => no_outer m
+  | WGetter (AVal v) => simple_val v && no_outer m
+  | WGetter _ => false
+  | WClassMethod | WStaticMethod => no_outer m
+  | WPlain => true
+  end.
+
+Lemma getter_ok_eq : forall m, getter_ok m = getter_ok' m.
+Proof.
+  intro m. unfold getter_ok, getter_ok', getter_dom, raising_getter.
+  destruct (m_wrap m) as [| | |[v|e|o]|o]; try reflexivity; try (now rewrite andb_true_r); now rewrite andb_false_r.
+Qed.
+
 Lemma build_attr_claimed : forall m, claimed_def m = true -> build_attr F m = Ok (entry_of m).
 Proof.
   intros m H. unfold claimed_def in H.
   apply andb_true_iff in H as [H _]. apply andb_true_iff in H as [H Hg]. apply andb_true_iff in H as [H _].
   apply andb_true_iff in H as [Hk _].
-  unfold build_attr, entry_of, obj_of, attrs_of, all_decos in *. unfold getter_ok, no_outer in Hg.
+  rewrite getter_ok_eq in Hg. unfold build_attr, entry_of, obj_of, attrs_of, all_decos in *. unfold getter_ok', no_outer in Hg.
   destruct (m_wrap m) as [| | |a|o].
   - now rewrite (apply_decos_keep _ _ _ Hk).
   - destruct (m_outer m); [|discriminate]. rewrite app_nil_r in *. now rewrite (apply_decos_keep _ _ _ Hk).
@@ -566,7 +581,7 @@ Lemma val_at_def : forall w cd m,
 Proof.
   intros w cd m Hw Hc Hm. destruct (claimed_parts _ Hc) as [Hn Hall].
   destruct (Hall m Hm) as (_ & _ & _ & Hg & Hr). unfold val_at.
-  rewrite Hw, (assoc_entry _ _ Hn Hm). unfold entry_of, is_method, getter_ok in *. cbn [snd].
+  rewrite Hw, (assoc_entry _ _ Hn Hm). rewrite getter_ok_eq in Hg. unfold entry_of, is_method, getter_ok' in *. cbn [snd].
   destruct (m_wrap m) as [| | |a|o]; try (split; [reflexivity|split; [reflexivity|discriminate]]).
   - destruct a as [v| |]; try discriminate Hg. apply andb_true_iff in Hg as [Hs _].
     destruct (simple_inert _ Hs) as [Hi Ha]. split; [exact Hi|]. split; [discriminate|intros _; exact Ha].
@@ -580,7 +595,7 @@ Lemma skip_def : forall w cd m,
 Proof.
   intros w cd m Hw Hc Hm. destruct (claimed_parts _ Hc) as [Hn Hall]. destruct (Hall m Hm) as (_ & _ & _ & Hg & _).
   unfold skip, isprop, dunder. rewrite is_property_reserved, Hw, (assoc_entry _ _ Hn Hm). rewrite <- orb_assoc. do 2 f_equal.
-  unfold entry_of, is_wprop, getter_ok in *. cbn [snd].
+  rewrite getter_ok_eq in Hg. unfold entry_of, is_wprop, getter_ok' in *. cbn [snd].
   destruct (m_wrap m) as [| | |a|o]; try reflexivity. destruct a; try discriminate Hg; reflexivity.
 Qed.
 
@@ -678,7 +693,7 @@ Section Final.
     rewrite (get_attr_inst _ _ _ _ _ Hd). unfold val_at.
     rewrite (skip_def w cd m Hw Hc Hm) in Hd. apply orb_false_iff in Hd as [_ Hp].
     destruct (claimed_parts _ Hc) as [Hn Hall]. destruct (Hall m Hm) as (_ & _ & _ & Hg & _).
-    rewrite Hw, (assoc_entry _ _ Hn Hm). unfold entry_of, getter_ok, is_wprop in *. cbn [snd].
+    rewrite getter_ok_eq in Hg. rewrite Hw, (assoc_entry _ _ Hn Hm). unfold entry_of, getter_ok', is_wprop in *. cbn [snd].
     destruct (m_wrap m) as [| | |a|o]; try reflexivity; [|discriminate Hp]. destruct a; try discriminate Hg; reflexivity.
   Qed.
 
@@ -802,3 +817,12 @@ Proof.
   now rewrite (tvar_unparam w k c ts H).
 Qed.
 
+
+(* claimed = the domain of the statement + no descriptor that raises when read *)
+Lemma claimed_split : forall cd, in_domain cd = true -> no_raising_getter cd = true -> claimed cd = true.
+Proof.
+  unfold in_domain, no_raising_getter, claimed. intros cd H Hr. apply andb_true_iff in H as [H Hn].
+  rewrite Hn, andb_true_r. rewrite forallb_forall in *. intros m Hm. specialize (H m Hm). specialize (Hr m Hm).
+  unfold in_domain_def in H. unfold claimed_def, getter_ok.
+  apply andb_true_iff in H as [H H5]. apply andb_true_iff in H as [H H4]. rewrite H, H4, Hr, H5. reflexivity.
+Qed.
